@@ -49,6 +49,9 @@ thread_local! {
     // 'static for storage only; they are read back in `after_analysis` of the same session,
     // while the arenas they point into are alive.
     static SAVED: RefCell<Vec<(LocalDefId, Body<'static>)>> = RefCell::new(Vec::new());
+    // promoted constants of each body (`&Some(X)`, `== Some(Variant)` operands, ...): exported as bodies named
+    // `<def>::promoted[i]`, the spelling rustc prints for the constant operand that refers to them
+    static SAVED_PROMOTED: RefCell<Vec<(LocalDefId, usize, Body<'static>)>> = RefCell::new(Vec::new());
 }
 
 fn my_promoted<'tcx>(
@@ -59,6 +62,11 @@ fn my_promoted<'tcx>(
     let cloned: Body<'tcx> = r.0.borrow().clone();
     let erased: Body<'static> = unsafe { std::mem::transmute(cloned) };
     SAVED.with(|s| s.borrow_mut().push((def, erased)));
+    for (i, pb) in r.1.borrow().iter_enumerated() {
+        let pc: Body<'tcx> = pb.clone();
+        let pe: Body<'static> = unsafe { std::mem::transmute(pc) };
+        SAVED_PROMOTED.with(|s| s.borrow_mut().push((def, i.as_usize(), pe)));
+    }
     r
 }
 
@@ -376,20 +384,26 @@ impl<'tcx> Cx<'tcx> {
         J::n(b.as_usize())
     }
 
-    fn body(&mut self, def: LocalDefId, body: &Body<'tcx>) -> J {
+    fn body(&mut self, def: LocalDefId, body: &Body<'tcx>, promoted: Option<usize>) -> J {
         let tcx = self.tcx;
         let did = def.to_def_id();
         let mut o: Vec<(&'static str, J)> = vec![];
-        o.push(("def", J::s(dp(tcx, did))));
-        let kind = tcx.def_kind(did);
-        o.push(("def_kind", J::s(format!("{kind:?}"))));
+        if let Some(i) = promoted {
+            o.push(("def", J::s(format!("{}::promoted[{}]", dp(tcx, did), i))));
+            o.push(("def_kind", J::s("Promoted")));
+            o.push(("promoted_of", J::s(dp(tcx, did))));
+        } else {
+            o.push(("def", J::s(dp(tcx, did))));
+            let kind = tcx.def_kind(did);
+            o.push(("def_kind", J::s(format!("{kind:?}"))));
+        }
         o.push(("span", self.span(body.span)));
         o.push(("arg_count", J::n(body.arg_count)));
         if let Some(ck) = body.coroutine_kind() {
             o.push(("coroutine_kind", J::s(format!("{ck:?}"))));
         }
         let parent = tcx.typeck_root_def_id_local(def);
-        if parent != def {
+        if parent != def && promoted.is_none() {
             o.push(("root", J::s(dp(tcx, parent.to_def_id()))));
             o.push(("parent", J::s(dp(tcx, tcx.local_parent(def).to_def_id()))));
         }
@@ -547,7 +561,7 @@ impl<'tcx> Cx<'tcx> {
         o.push(("blocks", J::Arr(blocks)));
 
         // coroutine layout (compiler's own liveness across suspension points)
-        if tcx.is_coroutine(did) {
+        if tcx.is_coroutine(did) && promoted.is_none() {
             if let Some(layout) = tcx.mir_coroutine_witnesses(did) {
                 let mut saved: Vec<J> = vec![];
                 for (i, f) in layout.field_tys.iter_enumerated() {
@@ -574,7 +588,7 @@ impl<'tcx> Cx<'tcx> {
             }
         }
         // select! DSL sites
-        let sel = select::find_sites(self, body);
+        let sel = if promoted.is_none() { select::find_sites(self, body) } else { vec![] };
         if !sel.is_empty() {
             o.push(("selects", J::Arr(sel)));
         }
@@ -799,7 +813,13 @@ impl rustc_driver::Callbacks for Cb {
         for (def, body) in saved.iter() {
             let body: &'tcx Body<'tcx> = unsafe { std::mem::transmute(body) };
             cx.cur_body = Some(body);
-            bodies.push(cx.body(*def, body));
+            bodies.push(cx.body(*def, body, None));
+        }
+        let saved_p: Vec<(LocalDefId, usize, Body<'static>)> = SAVED_PROMOTED.with(|s| std::mem::take(&mut *s.borrow_mut()));
+        for (def, i, body) in saved_p.iter() {
+            let body: &'tcx Body<'tcx> = unsafe { std::mem::transmute(body) };
+            cx.cur_body = Some(body);
+            bodies.push(cx.body(*def, body, Some(*i)));
         }
         let mut top: Vec<(&'static str, J)> = vec![];
         top.push(("crate", J::s(crate_name.clone())));
